@@ -49,6 +49,11 @@ CHECKS = {
          "(a) every coefficient tuple in [-3,3] for one parameter and sampled/complete tuples for 2-3 parameters, each written in random syntactic forms (operand order, grouping, n+n+n, redundant terms), decided by the real function in both argument orders and through broadcasting, stack, einsum and call-argument checking; agreement on {0,1,2}^d decides equality of affine functions completely. (b) .shape of every node of symbolic programs evaluated at valuations equals NumPy's. (c) one compilation per program, executed at all valuations 0..6 (d<=2) or 60 sampled (d=3), values vs NumPy.",
          "Operations restricted to those the quantifier lists. Sizes > 6 and coefficients outside [-3,3] are not observed. Execution as C01.",
          "DESIGN.md §3 C16"),
+ "C03": ("exploration",
+         "differential construction-time oracle: shape/dtype/acceptance of every public operator and array function vs NumPy on concrete operands, full operand-kind x dtype-pair x shape-relation product; first-deviation monitor over every intermediate node of random programs",
+         "Runs the real constructors over the complete grid (13 dtypes incl. all ints/uints/complex64, array / Python-scalar / NumPy-scalar operands in both positions, broadcastable and non-broadcastable shape pairs, every axis argument in [-ndim-1, ndim+1], all int indices and a slice grid on axis lengths 0..6, reshape/einsum/stack error cases) and reads .shape/.dtype immediately. NumPy-ok/pytato-ok pairs must agree; a NumPy shape/axis/index error that pytato accepts (or only reports on .shape access) is a violation; pytato being stricter is allowed. Deviations are keyed per grid cell (function, operand kinds, dtype classes) so a known cell never hides a new one.",
+         "The installed NumPy's promotion rules are the reference. Shapes with more than 3 axes / lengths > 6 are only covered through the random programs.",
+         "DESIGN.md §3 C03"),
 }
 
 NOT_YET = {
